@@ -35,6 +35,9 @@ inline void dns(const DNS& d, Counters& c) {
     ++c.calls; try { for (auto& q : d.queries()) { sink(q.dname()); sink(q.query_type()); } } catch (Tins::exception_base&) { ++c.tins_exc; }
     ++c.calls; try { for (auto& r : d.answers()) { sink(r.dname()); sink(r.data()); sink(r.ttl()); sink(r.preference()); } } catch (Tins::exception_base&) { ++c.tins_exc; }
     ++c.calls; try { for (auto& r : d.authority()) { sink(r.dname()); sink(r.data()); } } catch (Tins::exception_base&) { ++c.tins_exc; }
+    // typed view of SOA records, as an application reading zone data would take it
+    { std::vector<DNS::resource> all; try { all = d.answers(); } catch (Tins::exception_base&) {} try { DNS::resources_type au = d.authority(); all.insert(all.end(), au.begin(), au.end()); } catch (Tins::exception_base&) {} try { DNS::resources_type ad = d.additional(); all.insert(all.end(), ad.begin(), ad.end()); } catch (Tins::exception_base&) {}
+      for (auto& r : all) if (r.query_type() == DNS::SOA) { ++c.calls; try { DNS::soa_record so(r); sink(so.mname()); sink(so.rname()); sink(so.serial()); sink(so.refresh()); sink(so.retry()); sink(so.expire()); sink(so.minimum_ttl()); } catch (Tins::exception_base&) { ++c.tins_exc; } } }
     ++c.calls; try { for (auto& r : d.additional()) { sink(r.dname()); sink(r.data()); } } catch (Tins::exception_base&) { ++c.tins_exc; }
 }
 inline void dhcp(const DHCP& d, Counters& c) {
